@@ -240,6 +240,85 @@ func hostileBytes(h Hostile, id string) []byte {
 	return b
 }
 
+// semTree turns a value into a plain tree in which representations that mean the same are the
+// same: an empty map or slice is an absent one, a pointer is what it points to.
+func semTree(v reflect.Value) interface{} {
+	if !v.IsValid() {
+		return nil
+	}
+	switch v.Kind() {
+	case reflect.Ptr, reflect.Interface:
+		if v.IsNil() {
+			return nil
+		}
+		return semTree(v.Elem())
+	case reflect.Struct:
+		if v.Type() == reflect.TypeOf(lime.URI{}) {
+			// (a URI is its text: url.URL keeps how it was spelt, which escaping normalises)
+			u := v.Interface().(lime.URI)
+			return "uri:" + u.String()
+		}
+		m := map[string]interface{}{}
+		for i := 0; i < v.NumField(); i++ {
+			if t := semTree(v.Field(i)); t != nil {
+				m[v.Type().Field(i).Name] = t
+			}
+		}
+		if len(m) == 0 {
+			return nil
+		}
+		return m
+	case reflect.Map:
+		if v.Len() == 0 {
+			return nil
+		}
+		// (sorted: the harness is instrumented too, the order of its own steps is part of the event log)
+		m := map[string]interface{}{}
+		keys := v.MapKeys()
+		names := make([]string, len(keys))
+		byName := map[string]reflect.Value{}
+		for i, k := range keys {
+			names[i] = fmt.Sprint(k.Interface())
+			byName[names[i]] = k
+		}
+		sortStrings(names)
+		for _, n := range names {
+			m[n] = semTree(v.MapIndex(byName[n]))
+		}
+		return m
+	case reflect.Slice, reflect.Array:
+		if v.Len() == 0 {
+			return nil
+		}
+		if v.Type().Elem().Kind() == reflect.Uint8 {
+			return fmt.Sprintf("%x", v.Bytes())
+		}
+		l := make([]interface{}, v.Len())
+		for i := range l {
+			l[i] = semTree(v.Index(i))
+		}
+		return l
+	case reflect.String:
+		if v.Len() == 0 {
+			return nil
+		}
+		return v.String()
+	case reflect.Bool:
+		if !v.Bool() {
+			return nil
+		}
+		return true
+	case reflect.Int, reflect.Int8, reflect.Int16, reflect.Int32, reflect.Int64:
+		return v.Int()
+	case reflect.Uint, reflect.Uint8, reflect.Uint16, reflect.Uint32, reflect.Uint64:
+		return v.Uint()
+	case reflect.Float32, reflect.Float64:
+		return v.Float()
+	default:
+		return fmt.Sprintf("%v", v)
+	}
+}
+
 // reencodeStable checks the second half of C02 on an accepted envelope.
 func reencodeStable(w *World, where string, env interface{}) {
 	kind, _, _ := Describe(env)
@@ -265,6 +344,11 @@ func reencodeStable(w *World, where string, env interface{}) {
 	}
 	if err := json.Unmarshal(b1, e2); err != nil {
 		w.Violate("C02.reencoded-not-decodable", fmt.Sprintf("%s kind=%d", where, kind), "an envelope accepted by %s was re-encoded to %s, which does not decode: %v", where, short(string(b1), 300), err)
+		return
+	}
+	// ... and what that encoding decodes to is the envelope that was accepted
+	if !reflect.DeepEqual(semTree(reflect.ValueOf(env)), semTree(reflect.ValueOf(e2))) {
+		w.Violate("C02.reencoded-not-equal", fmt.Sprintf("%s kind=%d", where, kind), "an envelope accepted by %s differs from what its own encoding decodes to\naccepted: %#v\nencoding: %s\n decoded: %#v", where, env, short(string(b1), 300), e2)
 		return
 	}
 	b2, err := json.Marshal(e2)
